@@ -362,6 +362,112 @@ Definition dispatch (kind : string) (args : list string) : string :=
   end.
 
 (* ---------------------------------------------------------------- *)
+(* Hypotheses of the theorems, decided per case.  Every theorem of Properties/C07.v has hypotheses of three
+   kinds: (i) guaranteed by Go types (bytes < 256, uint16 ids and ports, a 1522-byte pool buffer);
+   (ii) checked by the Go function itself: then the negation is a refusal theorem and the case must show "none";
+   (iii) assumed of the caller / the configuration (6-byte NIC and destination MACs, 4- and 16-byte addresses,
+   payloads that fit): these are decided here on every case, and a case outside them is reported as
+   outside-theorem-domain, so the generators provably stay inside what the theorems cover.
+   adm_of: 0 = the code must refuse (a refusal theorem applies), 1 = a frame must be sent and be well-formed,
+   2 = if a frame is sent it must be well-formed (the marshalling may refuse), 3 = outside every theorem. *)
+Definition okb (l : bytes) : bool := forallb (fun b => b <? 256) l.
+Definition macb (m : bytes) : bool := lenb m 6 && okb m.
+Definition ip4b (a : bytes) : bool := lenb a 4 && okb a.
+Definition ip6b (a : bytes) : bool := lenb a 16 && okb a.
+Definition cfgb (c : cfg) : bool :=
+  macb (host_mac c) && ip4b (host_ip4 c) && (ip6b (host_lla c) || lenb (host_lla c) 0)
+  && macb (router_mac c) && ip4b (router_ip4 c).
+Definition code (refuse : bool) (hyps : bool) : N := if refuse then 0 else if hyps then 1 else 3.
+Definition optokb (o : N * bytes) : bool :=
+  (0 <? fst o) && (fst o <? 255) && Nat.leb (List.length (snd o)) 255 && okb (snd o)
+  && negb (fst o =? 1) && negb (fst o =? 33) && negb (fst o =? 3).
+
+Definition adm_of (kind : string) (c : cfg) (rest : list string) : N :=
+  let b s := match bytes_of_tok s with Some x => x | None => [300] end in
+  let n s := match N_of_dec s with Some x => x | None => 65536 end in
+  let is k := String.eqb kind k in
+  if negb (cfgb c) then 3 else
+  match rest with
+  | [ip; _] =>
+      if is "purgearp" then code false (ip4b (b ip))
+      else if is "arpreq" then code (negb (is4 (b ip))) (ip4b (b ip))
+      else if is "arpprobe" then code (negb (is4 (b ip))) (ip4b (b ip))
+      else if is "nbnsstat" then code false (n ip <? 65536)
+      else 3
+  | [_] => if is "rs" || is "ssdp" then 1
+           else if is "mdnsq" || is "llmnrq" then match rest with [nm] => code (negb (dns_pack_ok (b nm))) (okb (b nm)) | _ => 3 end
+           else 3
+  | [m; ip; _] =>
+      (* arpreqto / arpannounce / huntstart / huntstop / arpspoofreply: a MAC and an IPv4 address *)
+      if is "arpreqto" || is "arpannounce" || is "huntstart" || is "huntstop" || is "arpspoofreply"
+      then code (negb (is_mac (b m)) || negb (is4 (b ip))) (macb (b m) && ip4b (b ip))
+      else 3
+  | [tm; ti; id; _] =>
+      if is "purge6" then code (negb (is6 (host_lla c))) (macb (b tm) && ip6b (b ti) && (n id <? 65536))
+      else if is "dhcpreply" then
+        let p := b id in
+        code (Nat.ltb 1480 (List.length p))
+             (macb (b tm) && ip4b (b ti) && dst4_mac_ok (b tm) (b ti) && okb p)
+      else 3
+  | [dm; di; rd; pf; _] =>
+      if is "ra" then
+        match rdnss_of_tok rd, prefixes_of_tok pf with
+        | Some rd, Some pf =>
+            if macb (b dm) && ip6b (b di)
+               && forallb (fun p => (fst p <? 256) && ip6b (snd p)) pf
+               && match rd with Some (_, srv) => forallb ip6b srv | None => true end
+            then 2 else 3
+        | _, _ => 3
+        end
+      else 3
+  | [sm; si; dm; di; tg; _] =>
+      if is "ns" then code false (macb (b dm) && ip6b (b si) && ip6b (b di) && ip6b (b tg))
+      else if is "arpraw" || is "arpreply" then
+        (* dst sm si tm ti: here sm = dst, si = sender MAC, dm = sender IP, di = target MAC, tg = target IP *)
+        code (negb (arp_args_ok (b sm) (b si, b dm) (b di, b tg)))
+             (macb (b sm) && macb (b si) && ip4b (b dm) && macb (b di) && ip4b (b tg))
+      else if is "discover" then
+        (* ch ci xid name order *)
+        code (negb (match opt_bytes sm with Some (Some a) => Nat.eqb (List.length a) 6 | _ => false end))
+             (okb (b sm) && (is4 (b si) && okb (b si) || negb (is4 (b si))) && lenb (b dm) 4 && okb (b dm)
+              && okb (b di) && Nat.leb (List.length (b di)) 255)
+      else if is "sleepproxy" then
+        (* sm si dm di port payload *)
+        let p := b (match rest with [_;_;_;_;_;x] => x | _ => sm end) in
+        if is4 (b si)
+        then code (Nat.ltb 1480 (List.length p)) (ip4b (b si) && macb (b dm) && ip4b (b di) && (n tg <? 65536) && okb p)
+        else code (Nat.ltb 1460 (List.length p)) (ip6b (b si) && macb (b dm) && ip6b (b di) && (n tg <? 65536) && okb p)
+      else 3
+  | [a1; a2; a3; a4; a5; a6; _] =>
+      if is "echo4" then code (negb (is4 (b a2)) || negb (is4 (b a4)))
+                              (macb (b a3) && ip4b (b a2) && ip4b (b a4) && (n a5 <? 65536) && (n a6 <? 65536))
+      else if is "echo6" then code (negb (is6 (b a2)) || negb (is6 (b a4)))
+                              (macb (b a3) && ip6b (b a2) && ip6b (b a4) && (n a5 <? 65536) && (n a6 <? 65536))
+      else if is "na" then code (negb (Nat.eqb (List.length (b a5)) 6))
+                              (macb (b a3) && ip6b (b a2) && ip6b (b a4) && macb (b a5) && ip6b (b a6))
+      else if is "nbnsq" then code (Nat.ltb 16 (List.length (b a6)))
+                              (ip4b (b a2) && macb (b a3) && ip4b (b a4) && (n a5 <? 65536) && okb (b a6))
+      else if is "decline" || is "release" then
+        (* ch cid sip cip xid order *)
+        code false (macb (b a1) && okb (b a2) && Nat.leb (List.length (b a2)) 255 && ip4b (b a3) && ip4b (b a4)
+                    && lenb (b a5) 4 && okb (b a5))
+      else 3
+  | _ => 3
+  end.
+
+(* apply the admissibility code to the three columns of a verdict *)
+Definition with_adm (adm : N) (kind : string) (o : string) : string :=
+  match Text.split (ascii_of_N 9) o with
+  | [m; sp; k] =>
+      if String.eqb m BADARGS then o
+      else if adm =? 3 then out3 m ("outside-theorem-domain:" ++ kind) "-"
+      else if (adm =? 0) && negb (String.eqb m "none") then out3 m ("ill-formed:" ++ kind ++ ":sent-what-must-be-refused") "-"
+      else if (adm =? 1) && String.eqb m "none" then out3 m ("ill-formed:" ++ kind ++ ":refused-an-admissible-request") "-"
+      else o
+  | _ => o
+  end.
+
+(* ---------------------------------------------------------------- *)
 (* census of send sites (harness/cmd/c07/census.go): every place of the library that hands bytes to a
    connection or socket, with the model function that covers it.  A site that is not listed here comes back
    as UNMODELLED:<site>, i.e. a correspondence violation. *)
@@ -385,8 +491,92 @@ Definition send_sites : list (string * string) :=
 Definition show_site (tok : string) : string :=
   if existsb (fun s => String.eqb (fst s) tok) send_sites then tok else "UNMODELLED:" ++ tok.
 
+(* ---------------------------------------------------------------- *)
+(* call-graph census (harness/cmd/c07/census.go, `reach` case): every function declaration of the library from
+   which a send site is reachable (go/ast call graph, every package), with what C07 says about it: the model
+   function and its well-formedness / refusal theorems, "caller" (it sends only through modelled functions; its
+   own control flow belongs to the named property), or "not modelled" with the reason.  A declaration that is
+   not listed comes back as UNMODELLED:<key>. *)
+Definition send_reach : list (string * string) :=
+  [(".:Config.NewSession", "caller: sends only through the modelled functions above (events of C07_history); its control flow is C04");
+   (".:ExecPing", "not modelled: reaches only ExecPing, an ICMP echo through an OS datagram socket at NIC discovery (the kernel builds the frame; not the session connection)");
+   (".:GetIP4DefaultGatewayAddr", "not modelled: reaches only ExecPing, an ICMP echo through an OS datagram socket at NIC discovery (the kernel builds the frame; not the session connection)");
+   (".:GetLinuxDefaultGateway", "not modelled: reaches only ExecPing, an ICMP echo through an OS datagram socket at NIC discovery (the kernel builds the frame; not the session connection)");
+   (".:GetNICInfo", "not modelled: reaches only ExecPing, an ICMP echo through an OS datagram socket at NIC discovery (the kernel builds the frame; not the session connection)");
+   (".:LoadLinuxARPTable", "not modelled: reaches only ExecPing, an ICMP echo through an OS datagram socket at NIC discovery (the kernel builds the frame; not the session connection)");
+   (".:NewSession", "caller: sends only through the modelled functions above (events of C07_history); its control flow is C04");
+   (".:Session.ICMP4SendEchoRequest", "model send_echo4; C07_echo4_wellformed, C07_echo4_refuses_wrong_family");
+   (".:Session.ICMP6SendEchoRequest", "model send_echo6; C07_echo6_wellformed, C07_echo6_refuses_wrong_family");
+   (".:Session.ICMP6SendNeighborAdvertisement", "model send_na; C07_na_wellformed, C07_na_refuses_bad_target_mac");
+   (".:Session.ICMP6SendNeighbourSolicitation", "model send_ns; C07_ns_wellformed");
+   (".:Session.ICMP6SendRouterAdvertisement", "model send_ra; C07_ra_wellformed");
+   (".:Session.ICMP6SendRouterSolicitation", "model send_rs; C07_rs_wellformed, C07_rs_refuses_bad_mac");
+   (".:Session.Ping", "caller: sends only through the modelled functions above (events of C07_history); its control flow is C19");
+   (".:Session.Ping6", "caller: sends only through the modelled functions above (events of C07_history); its control flow is C19");
+   (".:Session.ValidateDefaultRouter", "caller: sends only through the modelled functions above (events of C07_history); its control flow is C19");
+   (".:Session.VerifPingFrom", "caller: sends only through the modelled functions above (events of C07_history); its control flow is C19");
+   (".:Session.VerifPurge", "model send_purge_arp / send_purge_ip6 (one probe per stale host; which hosts: C04); C07_purge_arp_wellformed, C07_purge_ns_wellformed, C07_purge_echo6_wellformed");
+   (".:Session.arpRequest", "model send_arp_request; C07_arp_request_wellformed");
+   (".:Session.icmp4SendPacket", "model icmp4_send_packet; C07_echo4_wellformed");
+   (".:Session.icmp6SendPacket", "model icmp6_send_packet; C07_icmp6_send_any_message, C07_icmp6_refuses_oversize");
+   (".:Session.ping", "caller: sends only through the modelled functions above (events of C07_history); its control flow is C19");
+   (".:Session.purge", "model send_purge_arp / send_purge_ip6 (one probe per stale host; which hosts: C04); C07_purge_arp_wellformed, C07_purge_ns_wellformed, C07_purge_echo6_wellformed");
+   (".:init", "not modelled: reaches only ExecPing, an ICMP echo through an OS datagram socket at NIC discovery (the kernel builds the frame; not the session connection)");
+   (".:packetConn.WriteTo", "not modelled: the raw-socket implementation of the connection itself");
+   (".:sysSocket.Sendto", "not modelled: the raw-socket implementation of the connection itself");
+   ("handlers/arp_spoofer:Handler.AnnounceTo", "model arp_announce_to; C07_arp_announce_wellformed");
+   ("handlers/arp_spoofer:Handler.Probe", "model arp_probe; C07_arp_probe_wellformed");
+   ("handlers/arp_spoofer:Handler.ProcessPacket", "caller: sends only through the modelled functions above (events of C07_history); its control flow is C13");
+   ("handlers/arp_spoofer:Handler.Reply", "model send_arp; C07_arp_spoofer_wellformed, C07_arp_spoofer_refuses_bad_args");
+   ("handlers/arp_spoofer:Handler.Request", "model arp_request / arp_request_to; C07_arp_request_to_wellformed, C07_arp_request_to_refuses_non_ip4");
+   ("handlers/arp_spoofer:Handler.RequestRaw", "model send_arp; C07_arp_spoofer_wellformed, C07_arp_spoofer_refuses_bad_args");
+   ("handlers/arp_spoofer:Handler.RequestTo", "model arp_request / arp_request_to; C07_arp_request_to_wellformed, C07_arp_request_to_refuses_non_ip4");
+   ("handlers/arp_spoofer:Handler.Scan", "caller: sends only through the modelled functions above (events of C07_history); its control flow is C13");
+   ("handlers/arp_spoofer:Handler.StartHunt", "caller: sends only through the modelled functions above (events of C07_history); its control flow is C13");
+   ("handlers/arp_spoofer:Handler.WhoIs", "caller: sends only through the modelled functions above (events of C07_history); its control flow is C13");
+   ("handlers/arp_spoofer:Handler.reply", "model send_arp; C07_arp_spoofer_wellformed, C07_arp_spoofer_refuses_bad_args");
+   ("handlers/arp_spoofer:Handler.spoofLoop", "caller: sends only through the modelled functions above (events of C07_history); its control flow is C13");
+   ("handlers/dhcp4_spoofer:Handler.ProcessPacket", "caller: sends only through the modelled functions above (events of C07_history); its control flow is C11/C12");
+   ("handlers/dhcp4_spoofer:Handler.SendDiscoverPacket", "model send_discover; C07_discover_wellformed, C07_discover_refuses_bad_chaddr");
+   ("handlers/dhcp4_spoofer:Handler.StartHunt", "caller: sends only through the modelled functions above (events of C07_history); its control flow is C11/C12");
+   ("handlers/dhcp4_spoofer:Handler.attackDHCPServer", "caller: sends only through the modelled functions above (events of C07_history); its control flow is C11/C12");
+   ("handlers/dhcp4_spoofer:Handler.forceDecline", "caller: sends only through the modelled functions above (events of C07_history); its control flow is C11/C12");
+   ("handlers/dhcp4_spoofer:Handler.forceRelease", "caller: sends only through the modelled functions above (events of C07_history); its control flow is C11/C12");
+   ("handlers/dhcp4_spoofer:Handler.handleDiscover", "caller: sends only through the modelled functions above (events of C07_history); its control flow is C11/C12");
+   ("handlers/dhcp4_spoofer:Handler.handleRequest", "caller: sends only through the modelled functions above (events of C07_history); its control flow is C11/C12");
+   ("handlers/dhcp4_spoofer:Handler.processClientPacket", "caller: sends only through the modelled functions above (events of C07_history); its control flow is C11/C12");
+   ("handlers/dhcp4_spoofer:Handler.sendDeclineReleasePacket", "model send_decline_release; C07_decline_release_wellformed");
+   ("handlers/dhcp4_spoofer:sendDHCP4Packet", "model send_dhcp4_packet; C07_udp4_encapsulation, C07_dhcp_reply_wellformed, C07_udp4_refuses_oversize");
+   ("handlers/dns_naming:DNSHandler.SendLLMNRQuery", "model send_llmnr_query; C07_llmnr_query_wellformed, C07_llmnr_query_refuses_unencodable");
+   ("handlers/dns_naming:DNSHandler.SendMDNSQuery", "model send_mdns_query; C07_mdns_query_wellformed, C07_mdns_query_refuses_unencodable");
+   ("handlers/dns_naming:DNSHandler.SendNBNSNodeStatus", "model send_nbns_node_status; C07_nbns_node_status_wellformed");
+   ("handlers/dns_naming:DNSHandler.SendNBNSQuery", "model send_nbns_query; C07_nbns_query_wellformed, C07_nbns_query_refuses_long_name");
+   ("handlers/dns_naming:DNSHandler.SendSSDPSearch", "model send_ssdp_search; C07_ssdp_wellformed");
+   ("handlers/dns_naming:DNSHandler.SendSleepProxyResponse", "event EvMdns (DNS message packed by third-party dnsmessage, carried by send_mdns); C07_mdns_ip4_branch, C07_mdns_ip6_branch");
+   ("handlers/dns_naming:DNSHandler.Start", "caller: sends only through the modelled functions above (events of C07_history); its control flow is C08/C17");
+   ("handlers/dns_naming:DNSHandler.sendMDNS", "model send_mdns; C07_mdns_ip4_branch, C07_mdns_ip6_branch");
+   ("handlers/dns_naming:DNSHandler.sendMDNSQuery", "model send_mdns_query; C07_mdns_query_wellformed, C07_mdns_query_refuses_unencodable");
+   ("handlers/dns_naming:DNSHandler.sendNBNS", "model send_nbns; C07_nbns_wellformed");
+   ("handlers/icmp_spoofer:Handler6.PingAll", "caller: sends only through the modelled functions above (events of C07_history); its control flow is C14");
+   ("handlers/icmp_spoofer:Handler6.ProcessPacket", "caller: sends only through the modelled functions above (events of C07_history); its control flow is C14");
+   ("handlers/icmp_spoofer:Handler6.StartHunt", "caller: sends only through the modelled functions above (events of C07_history); its control flow is C14");
+   ("handlers/icmp_spoofer:Handler6.StartRADVS", "caller: sends only through the modelled functions above (events of C07_history); its control flow is C14");
+   ("handlers/icmp_spoofer:Handler6.spoofLoop", "caller: sends only through the modelled functions above (events of C07_history); its control flow is C14");
+   ("handlers/icmp_spoofer:Handler6.startRADVS", "caller: sends only through the modelled functions above (events of C07_history); its control flow is C14");
+   ("handlers/icmp_spoofer:RADVS.SendRA", "caller: sends only through the modelled functions above (events of C07_history); its control flow is C14");
+   ("handlers/icmp_spoofer:RADVS.sendAdvertistementLoop", "caller: sends only through the modelled functions above (events of C07_history); its control flow is C14")].
+
+Definition show_reach (tok : string) : string :=
+  if existsb (fun s => String.eqb (fst s) tok) send_reach then tok else "UNMODELLED:" ++ tok.
+
 Definition dispatch_line (l : string) : string :=
   match words l with
-  | k :: args => if String.eqb k "sites" then out3 (join "," (map show_site args)) "-" "-" else dispatch k args
+  | k :: args => if String.eqb k "sites" then out3 (join "," (map show_site args)) "-" "-"
+                 else if String.eqb k "reach" then out3 (join "," (map show_reach args)) "-" "-"
+                 else match parse_cfg args with
+                      | Some (c, rest) =>
+                          with_adm (adm_of k c (filter (fun t => negb (String.prefix "scn:" t)) rest)) k (dispatch k args)
+                      | None => dispatch k args
+                      end
   | [] => BADARGS
   end.
